@@ -15,7 +15,8 @@ RULE = ("operation sequences (1-60 ops) over add_event/add_events/get_event/get_
         "types incl. base Event; checked op by op against a sorted-list model; non-trivial = >=1 insertion between "
         "retrievals and >=1 timestamp tie; distinct = distinct operation-kind/timestamp sequence")
 PROBES = ["tie_same_ts", "tie_same_ts_and_prec", "insert_between_retrievals", "roundtrip", "roundtrip_then_ops",
-          "get_current_below_all", "get_current_partial", "nonmonotone_t", "drained_then_reused", "base_event"]
+          "get_current_below_all", "get_current_partial", "nonmonotone_t", "drained_then_reused", "base_event",
+          "restored_vs_original_compared"]
 FAULT_DIMENSION = "restart only: JSON round trip of the queue at arbitrary points of the operation sequence"
 REAL_VS_STUB = "real: EventQueue, Event classes, EV, Battery, BaseSimObj JSON; ours: sorted-list reference model"
 ASSUMPTIONS = ["get_event on an empty queue is not generated (unspecified)",
@@ -109,6 +110,8 @@ def check(sc):
                 model.extend(mkey(d) for d in sc["init"])
             else:
                 q = sut.EventQueue()
+            shadow = None          # the original queue of the last JSON round trip: fed the same operations from then on
+            w_sh = None
             last_retrieval = None
             inserted_since = False
             last_t = None
@@ -123,6 +126,8 @@ def check(sc):
                     if not model and log and any(x[0] in ("get", "get_current") for x in log):
                         out.probe("drained_then_reused")
                     q.add_event(w.make(op["e"]))
+                    if shadow is not None:
+                        shadow.add_event(w_sh.make(op["e"]))
                     model.append(mkey(op["e"]))
                     inserted_since = True
                     if op["e"]["type"] == "Event":
@@ -130,6 +135,8 @@ def check(sc):
                     log.append(("add", op["e"]["ts"]))
                 elif o == "add_many":
                     q.add_events([w.make(d) for d in op["es"]])
+                    if shadow is not None:
+                        shadow.add_events([w_sh.make(d) for d in op["es"]])
                     model.extend(mkey(d) for d in op["es"])
                     inserted_since = inserted_since or bool(op["es"])
                     log.append(("add_many", len(op["es"])))
@@ -138,6 +145,13 @@ def check(sc):
                         continue
                     e = q.get_event()
                     k = key_of(e)
+                    if shadow is not None:
+                        ks_ = key_of(shadow.get_event())
+                        out.probe("restored_vs_original_compared")
+                        if ks_ != k:
+                            out.add("C11/restored_differs_from_original", "op %d get_event: restored queue returned %s, the original it was "
+                                    "saved from returned %s" % (i, k, ks_))
+                            break
                     best = min(order(m) for m in model)
                     if k not in model:
                         out.add("C11/get_event_unknown", "op %d returned %s not pending %s" % (i, k, sorted(model, key=order)[:6]))
@@ -156,6 +170,13 @@ def check(sc):
                 elif o == "get_current":
                     t = op["t"]
                     res = [key_of(e) for e in q.get_current_events(t)]
+                    if shadow is not None:
+                        rs_ = [key_of(e) for e in shadow.get_current_events(t)]
+                        out.probe("restored_vs_original_compared")
+                        if rs_ != res:
+                            out.add("C11/restored_differs_from_original", "op %d get_current_events(%d): restored queue returned %s, the "
+                                    "original it was saved from returned %s" % (i, t, res[:8], rs_[:8]))
+                            break
                     want = [m for m in model if m[0] <= t]
                     if sorted(res, key=str) != sorted(want, key=str):
                         out.add("C11/get_current_set", "op %d t=%d returned %s, pending with ts<=t %s" % (i, t, res[:8], sorted(want, key=order)[:8]))
@@ -216,8 +237,11 @@ def check(sc):
                         ev = getattr(e, "ev", None)
                         if ev is not None and by.setdefault(ev.session_id, ev) is not ev:
                             out.add("C11/roundtrip_shared_ev", "op %d session %s has two EV objects after load" % (i, ev.session_id))
+                    shadow, w_sh = q, w
                     q = q2
-                    w.evs = {}
+                    w = World()
+                    for sid_, ev_ in w_sh.evs.items():
+                        w.evs[sid_] = sut.EV(ev_.arrival, ev_.departure, ev_.requested_energy, ev_.station_id, sid_, sut.Battery(10, 0, 6))
                     for _, e in q.queue:
                         ev = getattr(e, "ev", None)
                         if ev is not None:
@@ -230,6 +254,13 @@ def check(sc):
                 rest = []
                 while not q.empty():
                     rest.append(key_of(q.get_event()))
+                if shadow is not None:
+                    rest_sh = []
+                    while not shadow.empty():
+                        rest_sh.append(key_of(shadow.get_event()))
+                    out.probe("restored_vs_original_compared")
+                    if rest_sh != rest:
+                        out.add("C11/restored_differs_from_original", "final drain: restored queue %s, original %s" % (rest[:10], rest_sh[:10]))
                 ks = [order(k) for k in rest]
                 if sorted(rest, key=str) != sorted(model, key=str) or ks != sorted(ks):
                     out.add("C11/final_drain", "drained %s, model %s" % (rest[:10], sorted(model, key=order)[:10]))
